@@ -1,0 +1,255 @@
+//! Verification hooks. Only compiled with feature `verif`.
+//!
+//! Nothing in here is used by normal builds. The hooks let an external
+//! harness:
+//!
+//! * make `new_stream()` hand out small and/or pre-positioned streams,
+//! * observe stream activity and live read/write windows,
+//! * dump the internal state of a circular buffer,
+//! * run timed waits and sleeps in virtual time.
+use std::collections::VecDeque;
+use std::sync::Mutex;
+use std::sync::atomic::{AtomicBool, AtomicU64, Ordering};
+
+/// How the next `new_stream()` call should set up its buffer.
+#[derive(Clone, Copy, Debug, PartialEq, Eq)]
+pub struct StreamSpec {
+    /// Buffer size in bytes. Must be a multiple of the page size.
+    pub size: usize,
+    /// Ring offset, in samples: produce and consume this many before handing
+    /// out the stream.
+    pub offset: usize,
+    /// Number of (default valued) samples left in the stream.
+    pub prefill: usize,
+}
+
+impl StreamSpec {
+    /// Plain stream of the given size.
+    pub fn plain(size: usize) -> Self {
+        Self {
+            size,
+            offset: 0,
+            prefill: 0,
+        }
+    }
+}
+
+struct Plan {
+    default_size: Option<usize>,
+    specs: VecDeque<StreamSpec>,
+}
+
+static PLAN: Mutex<Plan> = Mutex::new(Plan {
+    default_size: None,
+    specs: VecDeque::new(),
+});
+
+/// Set the size of all streams created from now on, unless overridden by a
+/// queued spec. `None` restores the library default.
+pub fn set_default_stream_size(size: Option<usize>) {
+    PLAN.lock().unwrap().default_size = size;
+}
+
+/// Queue a spec to be used by the next `new_stream()` call that has no earlier
+/// spec queued.
+pub fn push_stream_spec(spec: StreamSpec) {
+    PLAN.lock().unwrap().specs.push_back(spec);
+}
+
+/// Drop all queued specs.
+pub fn clear_stream_specs() {
+    PLAN.lock().unwrap().specs.clear();
+}
+
+/// Number of queued specs.
+pub fn pending_stream_specs() -> usize {
+    PLAN.lock().unwrap().specs.len()
+}
+
+pub(crate) fn next_stream_spec(library_default: usize) -> StreamSpec {
+    let mut p = PLAN.lock().unwrap();
+    if let Some(s) = p.specs.pop_front() {
+        return s;
+    }
+    StreamSpec::plain(p.default_size.unwrap_or(library_default))
+}
+
+static ACTIVITY: AtomicU64 = AtomicU64::new(0);
+
+/// Total number of samples and packets moved on any stream, ever.
+pub fn activity() -> u64 {
+    ACTIVITY.load(Ordering::SeqCst)
+}
+
+pub(crate) fn add_activity(n: usize) {
+    ACTIVITY.fetch_add(n as u64, Ordering::SeqCst);
+}
+
+static VIRTUAL_TIME: AtomicBool = AtomicBool::new(false);
+
+/// With virtual time on, timed waits that can't be satisfied immediately
+/// time out at once, and sleeps return at once. Only meaningful when a single
+/// thread drives everything.
+pub fn set_virtual_time(on: bool) {
+    VIRTUAL_TIME.store(on, Ordering::SeqCst);
+}
+
+/// Return true if virtual time is on.
+pub fn virtual_time() -> bool {
+    VIRTUAL_TIME.load(Ordering::SeqCst)
+}
+
+/// A window into a buffer that's currently held by someone.
+#[derive(Clone, Copy, Debug, PartialEq, Eq)]
+pub struct LiveWindow {
+    /// Unique token for this window.
+    pub token: u64,
+    /// True for write windows.
+    pub write: bool,
+    /// Start, in samples. Less than capacity.
+    pub start: usize,
+    /// End, in samples. Less than or equal to twice the capacity.
+    pub end: usize,
+}
+
+static TOKEN: AtomicU64 = AtomicU64::new(1);
+
+pub(crate) fn next_token() -> u64 {
+    TOKEN.fetch_add(1, Ordering::SeqCst)
+}
+
+/// Record of a live write window overlapping a live read window.
+#[derive(Clone, Debug, PartialEq, Eq)]
+pub struct Overlap {
+    /// Buffer id.
+    pub buffer: usize,
+    /// Capacity of buffer, in samples.
+    pub capacity: usize,
+    /// The read window.
+    pub read: LiveWindow,
+    /// The write window.
+    pub write: LiveWindow,
+}
+
+static OVERLAPS: Mutex<Vec<Overlap>> = Mutex::new(Vec::new());
+
+/// Take all recorded overlaps.
+pub fn take_overlaps() -> Vec<Overlap> {
+    std::mem::take(&mut *OVERLAPS.lock().unwrap())
+}
+
+fn ranges_overlap(a: &LiveWindow, b: &LiveWindow, cap: usize) -> bool {
+    // Windows are [start, end) with start < cap and end <= start + cap. Compare
+    // in the doubled index space, with b also shifted by one capacity either
+    // way.
+    if a.start == a.end || b.start == b.end {
+        return false;
+    }
+    let hit = |bs: usize, be: usize| a.start < be && bs < a.end;
+    hit(b.start, b.end)
+        || hit(b.start + cap, b.end + cap)
+        || (a.start + cap < b.end && b.start < a.end + cap)
+}
+
+/// Per buffer verification state. Lives inside the buffer's mutex.
+#[derive(Debug, Default)]
+pub struct BufVerif {
+    /// Samples ever produced.
+    pub produced: u64,
+    /// Samples ever consumed.
+    pub consumed: u64,
+}
+
+// (buffer id, claimed, window)
+static LIVE: Mutex<Vec<(usize, bool, LiveWindow)>> = Mutex::new(Vec::new());
+
+/// Register a live window. Must be called while holding the buffer lock, so
+/// that it's atomic with the snapshot of the range.
+pub(crate) fn open_window(
+    buffer: usize,
+    capacity: usize,
+    write: bool,
+    start: usize,
+    end: usize,
+) -> u64 {
+    let w = LiveWindow {
+        token: next_token(),
+        write,
+        start,
+        end,
+    };
+    let mut live = LIVE.lock().unwrap();
+    for (b, _, other) in live.iter() {
+        if *b == buffer && other.write != write && ranges_overlap(&w, other, capacity) {
+            let (read, write) = if write { (*other, w) } else { (w, *other) };
+            OVERLAPS.lock().unwrap().push(Overlap {
+                buffer,
+                capacity,
+                read,
+                write,
+            });
+        }
+    }
+    live.push((buffer, false, w));
+    w.token
+}
+
+/// Find the window object's registration, made under the lock.
+pub(crate) fn claim_window(buffer: usize, write: bool, start: usize, end: usize) -> u64 {
+    let mut live = LIVE.lock().unwrap();
+    for (b, claimed, w) in live.iter_mut() {
+        if *b == buffer && !*claimed && w.write == write && w.start == start && w.end == end {
+            *claimed = true;
+            return w.token;
+        }
+    }
+    0
+}
+
+pub(crate) fn close_window(token: u64) {
+    LIVE.lock().unwrap().retain(|(_, _, w)| w.token != token);
+}
+
+/// All live windows of a buffer.
+pub fn live_windows(buffer: usize) -> Vec<LiveWindow> {
+    LIVE.lock()
+        .unwrap()
+        .iter()
+        .filter(|(b, _, _)| *b == buffer)
+        .map(|(_, _, w)| *w)
+        .collect()
+}
+
+/// Number of live windows on any buffer.
+pub fn live_window_count() -> usize {
+    LIVE.lock().unwrap().len()
+}
+
+/// Forget all live windows and recorded overlaps. For use between executions
+/// that may have been abandoned half way.
+pub fn reset_windows() {
+    LIVE.lock().unwrap().clear();
+    OVERLAPS.lock().unwrap().clear();
+}
+
+/// Snapshot of the internals of a buffer.
+#[derive(Clone, Debug, PartialEq)]
+pub struct BufferDump {
+    /// Read position, in samples.
+    pub rpos: usize,
+    /// Write position, in samples.
+    pub wpos: usize,
+    /// Used samples.
+    pub used: usize,
+    /// Capacity in samples.
+    pub capacity: usize,
+    /// All tags in the tag map, by absolute position. Including ones outside
+    /// the readable range.
+    pub tags: Vec<(usize, Vec<crate::stream::Tag>)>,
+    /// Samples ever produced.
+    pub produced: u64,
+    /// Samples ever consumed.
+    pub consumed: u64,
+    /// Live windows.
+    pub live: Vec<LiveWindow>,
+}
